@@ -33,7 +33,7 @@ pub const DENY: &[&str] = &[
 pub const SIZE_SENSITIVE: &[&str] = &[
     "^", "<<", ">>", "**", ".*", "*.", "*$", "$*", "^^", "factorize", "is_prime", "til", "to", "iota",
     "repeat", "cycle", "take", "drop", "window", "group", "group'", "permutations", "combinations",
-    "subsequences", "random_bytes", "str_radix", "int_radix", "gcd", "lcm", "factorial", "!", "b_spline",
+    "subsequences", "random_bytes", "gcd", "lcm", "factorial", "!", "b_spline",
     "rearrange", "round", "prefixes", "suffixes", "***", "&&&", "lazy_zip", "zip", "ziplongest", "merge",
     "iterate", "lazy_map", "lazy_filter", "pairwise", "only", "sort", "unique", "sum", "product", "by", "×",
 ];
@@ -160,6 +160,53 @@ pub fn pool() -> Vec<(String, Ex, bool)> {
         .enumerate()
         .map(|(i, (e, h))| (format!("a{}", i), e, h))
         .collect()
+}
+
+/// fixed statements next to the grid: counts that are huge but fit a machine word applied to
+/// short finite sequences and streams (must return at once), and failing unpack / call / switch
+/// statements whose error message quotes a long value of multi-byte characters at every
+/// alignment (the message is built, clipped and handed to `catch`)
+fn stress_probes() -> Vec<Ex> {
+    let big = || Ex::Num(NumLit::Pow2(62));
+    let rng13 = || call("to", vec![int(1), int(3)]);
+    let l123 = || Ex::List(vec![int(1), int(2), int(3)]);
+    let mut v = vec![
+        call("drop", vec![rng13(), big()]),
+        call("drop", vec![l123(), big()]),
+        call("take", vec![rng13(), big()]),
+        call("take", vec![l123(), big()]),
+        call("drop", vec![Ex::Str("abc".into()), big()]),
+        Ex::Slice(Box::new(rng13()), Some(Box::new(big())), None),
+        Ex::Slice(Box::new(l123()), Some(Box::new(big())), None),
+        Ex::Slice(Box::new(call("stream", vec![l123()])), Some(Box::new(big())), None),
+        Ex::Slice(Box::new(call("permutations", vec![Ex::List(vec![int(1), int(2)])])), Some(Box::new(big())), None),
+        call("list", vec![call("drop", vec![call("to", vec![int(1), int(5)]), big()])]),
+    ];
+    for prefix in ["", "a", "aa"] {
+        for (ch, k) in [("é", 150), ("€", 100)] {
+            let long = || bin(Ex::Str(prefix.into()), "$", bin(Ex::Str(ch.into()), "$*", int(k)));
+            // too few items for the targets, in a fresh scope
+            v.push(Ex::Call(
+                Box::new(Ex::Lambda(
+                    vec![],
+                    Box::new(Ex::Assign(
+                        false,
+                        Box::new(Lv::Annot(Box::new(Lv::Seq(vec![lv("ua"), lv("ub")], false)), None)),
+                        Box::new(Ex::List(vec![long()])),
+                    )),
+                )),
+                vec![],
+            ));
+            // too few arguments
+            v.push(Ex::Call(
+                Box::new(Ex::Lambda(vec![lv("ua"), lv("ub")], Box::new(var("ua")))),
+                vec![long()],
+            ));
+            // no arm matches
+            v.push(Ex::Switch(Box::new(long()), vec![(Lv::Lit(Box::new(int(1))), int(2))]));
+        }
+    }
+    v
 }
 
 fn liveness_probe() -> Ex {
@@ -377,6 +424,12 @@ pub fn generate_mode(seed: u64, index: u64, exhaustive: bool, inf: InfMode) -> F
         n_calls += 1;
         if n_calls % 30 == 0 {
             let _ = g.push("liveness-probe", liveness_probe(), vec![]);
+        }
+    }
+    if part == 0 {
+        for e in stress_probes() {
+            let e = Ex::Try(Box::new(e), Box::new(lv("e")), Box::new(Ex::Str("caught".into())));
+            g.push_outcome_only_t("stress-probe", e, vec![], true, true);
         }
     }
     let _ = g.push("liveness-probe", liveness_probe(), vec![]);
